@@ -62,6 +62,12 @@ void QIODeviceCopierPrivate::onReadChannelFinished()
     // Read any data that remains and signal the end of the operation
     if (src->bytesAvailable()) {
         onReadyRead();
+
+        // A slot reached from inside that write may have stopped the copy;
+        // stop() has signalled the end already
+        if (stopped) {
+            return;
+        }
     }
 
     Q_EMIT q->finished();
@@ -96,6 +102,12 @@ void QIODeviceCopierPrivate::nextBlock()
     if (dest->write(data.constData(), dataRead) == -1) {
         Q_EMIT q->error(dest->errorString());
         Q_EMIT q->finished();
+        return;
+    }
+
+    // A slot reached from inside the write may have stopped the copy; stop()
+    // has signalled the end already
+    if (stopped) {
         return;
     }
 
